@@ -51,6 +51,10 @@ type ArrV struct {
 type IfV struct {
 	Tag, Ref *Term
 	Ty       types.Type
+	// Conc, when set, is the concrete value this interface was just made from (known only
+	// while the value stays in SSA registers; dropped by any merge or store). It allows static
+	// dispatch and exact unboxing, also for interior pointers that have no plain reference.
+	Conc Value
 }
 
 // TupV is a multi-value result.
@@ -360,7 +364,7 @@ func unflatten(t types.Type, ts []*Term) (Value, []*Term) {
 	case *types.Map, *types.Chan, *types.Signature:
 		return Sc{ts[0], t}, ts[1:]
 	case *types.Interface:
-		return IfV{ts[0], ts[1], t}, ts[2:]
+		return IfV{Tag: ts[0], Ref: ts[1], Ty: t}, ts[2:]
 	case *types.Struct:
 		sv := StV{Ty: t}
 		for i := 0; i < u.NumFields(); i++ {
